@@ -376,6 +376,11 @@ func normalizeHeaderValue(ov []byte) (nv []byte) {
 		nv[write] = c
 		write++
 	}
+	// blanks at the end of the compacted value (a continuation line of blanks only) are not part of it
+	// either: a single-line value is stripped of them, and so is this one when it is scanned again
+	for write > 0 && nv[write-1] == ' ' {
+		write--
+	}
 	// Right-align the compacted value and put the blanks in front of it: blanks between the
 	// colon and the value are skipped by the scanner, so scanning the same (or a longer) prefix of
 	// the header block again - a response or trailer block that arrives in several reads is scanned
